@@ -7,6 +7,7 @@ import Driver.TxPool
 import Driver.ConnGater
 import Driver.Exec
 import Driver.SMT
+import Driver.RMT
 import Driver.ReqResp
 
 def main (args : List String) : IO UInt32 := do
@@ -20,6 +21,7 @@ def main (args : List String) : IO UInt32 := do
   | ["C18"] => Driver.ConnGater.main; return 0
   | ["C16"] => Driver.Exec.main; return 0
   | ["C10"] => Driver.SMT.main; return 0
+  | ["C11"] => Driver.RMT.main; return 0
   | ["C17"] => Driver.ReqResp.main; return 0
   | ["C01"] => Driver.BFT.main; return 0
   | _ => IO.eprintln "usage: ldriver <property-id>"; return 2
